@@ -29,6 +29,19 @@ where
     bits_read: usize,
 }
 
+#[cfg(feature = "verif-hooks")]
+impl<R> H263Reader<R>
+where
+    R: Read,
+{
+    /// Verification hook: (bytes held in the internal buffer, bits of them
+    /// already consumed). Lets a harness compute the reader position without
+    /// reading from it.
+    pub fn verif_buffer_state(&self) -> (usize, usize) {
+        (self.buffer.len(), self.bits_read)
+    }
+}
+
 impl<R> H263Reader<R>
 where
     R: Read,
